@@ -498,7 +498,8 @@ theorem pool_without_reset_leaks :
     SOME path: a non-hidden file / listing below the root, a redirect, 404 / pass-thru … — the
     matcher and the rewrite can change WHICH file is served, never widen what may be served. -/
 theorem site_outcome_justified (fs : FS) (c : Cfg) (tries : Option (List TryFile)) (path : Bytes)
-    (hfs : fs [] = .missing) : ∃ p', Justified fs c p' (siteServe fs c tries path).1 := by
+    (pol : Option ScanPolicy) (fb : Bool)
+    (hfs : fs [] = .missing) : ∃ p', Justified fs c p' (siteServe fs c tries path pol fb).1 := by
   unfold siteServe
   split
   · exact ⟨_, serve_justified fs c path path hfs⟩
@@ -509,9 +510,10 @@ theorem site_outcome_justified (fs : FS) (c : Cfg) (tries : Option (List TryFile
 /-- **site_serves_no_hidden_file.** … in particular the bytes the site sends are never those of a
     hidden file or of a file outside the root. -/
 theorem site_serves_no_hidden_file (fs : FS) (c : Cfg) (tries : Option (List TryFile)) (path p : Bytes) (id : Nat)
-    (hfs : fs [] = .missing) (h : (siteServe fs c tries path).1 = .file p id) :
+    (pol : Option ScanPolicy) (fb : Bool)
+    (hfs : fs [] = .missing) (h : (siteServe fs c tries path pol fb).1 = .file p id) :
     UnderS c.rootC p ∧ c.hidden p = false ∧ fs p = .file id := by
-  obtain ⟨_, this⟩ := site_outcome_justified fs c tries path hfs
+  obtain ⟨_, this⟩ := site_outcome_justified fs c tries path pol fb hfs
   rw [h] at this
   exact this
 
